@@ -287,15 +287,16 @@ def routing_simple(ctx, taped: bool):
     elif which == "smtwtp":
         from rl4co.envs.scheduling.smtwtp.generator import SMTWTPGenerator
         span = rng.choice([None, 4.0, 8.0])
+        top_ = n / 2 if span is None else span            # the generator's default `max_time_span = num_job / 2`
         s0 = rng.choice([0, 0, 1.0])
+        if s0 >= top_:                                     # only legal parameterisations: min_time_span < max_time_span
+            s0 = 0
         w0, w1 = rng.choice([(0, 1), (0, 1), (0.5, 2.0), (1.0, 1.0)])
         p0, p1 = rng.choice([(0, 1), (0, 1), (0.25, 0.75), (2.0, 4.0)])
         params = dict(num_job=n, min_time_span=s0, max_time_span=span, min_job_weight=w0, max_job_weight=w1, min_process_time=p0, max_process_time=p1)
         td = run(SMTWTPGenerator(**params))
         check_keys(ctx, which, td, {"job_due_time": (n + 1,), "job_weight": (n + 1,), "job_process_time": (n + 1,)}, B, params)
         top = n / 2 if span is None else span
-        if top < s0:
-            top = s0
         rngs = {"job_due_time": (s0, top), "job_weight": (w0, w1), "job_process_time": (p0, p1)}
         for k_, (l_, h_) in rngs.items():
             check_bounds(ctx, which, k_, td[k_][:, 1:], min(l_, h_), max(l_, h_), params)
@@ -2088,30 +2089,40 @@ def run_ckpt(ctx):
     try:
         combos = [("tsp", k) for k in kinds]
         if ctx.tier != "quick":
-            combos += [("cvrp", k) for k in kinds] + [("tsp", ("rollout", {}, 2)), ("tsp", ("mean", {}, 2)), ("tsp", ("shared", {}, 2))]
-        for envname, (bl, blkw, epochs) in combos:
+            # ("shared" needs a multi-start reward [B, starts]: it belongs to POMO, not to plain REINFORCE — not a legal combination here)
+            combos += [("cvrp", k) for k in kinds] + [("tsp", ("rollout", {}, 2)), ("tsp", ("mean", {}, 2))]
+        def one(ctx, envname, bl, blkw, epochs):
             seed = rng.randrange(1 << 30)
             seed_all(seed)
             hp = dict(batch_size=rng.choice([4, 8]), val_batch_size=8, test_batch_size=8, train_data_size=16, val_data_size=8, test_data_size=8,
                       optimizer_kwargs={"lr": rng.choice([1e-3, 5e-3])})
             num_loc = rng.choice([5, 6, 7])
-            with quiet():
-                env = (TSPEnv if envname == "tsp" else CVRPEnv)(generator_params=dict(num_loc=num_loc))
-                policy = AttentionModelPolicy(env_name=envname, embed_dim=16, num_encoder_layers=1, num_heads=2, feedforward_hidden=16)
-                baseline = bl
-                if bl == "critic":
-                    baseline = CriticBaseline(CriticNetwork(copy.deepcopy(policy.encoder), embed_dim=16, hidden_dim=16))
-                model = REINFORCE(env, policy, baseline=baseline, baseline_kwargs=blkw if isinstance(baseline, str) else {}, **hp)
-                tr = RL4COTrainer(max_epochs=epochs, accelerator="cpu", devices=1, logger=False, enable_checkpointing=False, enable_progress_bar=False,
-                                  enable_model_summary=False, default_root_dir=out, num_sanity_val_steps=0)
-                tr.fit(model)
-                path = os.path.join(out, f"{envname}_{bl}.ckpt")
-                tr.save_checkpoint(path)
+            witness = {"env": envname, "num_loc": num_loc, "baseline": bl, "baseline_kwargs": blkw, "epochs": epochs, "seed": seed, "torch": torch.__version__}
+            try:
+                with quiet():
+                    env = (TSPEnv if envname == "tsp" else CVRPEnv)(generator_params=dict(num_loc=num_loc))
+                    policy = AttentionModelPolicy(env_name=envname, embed_dim=16, num_encoder_layers=1, num_heads=2, feedforward_hidden=16)
+                    baseline = bl
+                    if bl == "critic":
+                        baseline = CriticBaseline(CriticNetwork(copy.deepcopy(policy.encoder), embed_dim=16, hidden_dim=16))
+                    model = REINFORCE(env, policy, baseline=baseline, baseline_kwargs=blkw if isinstance(baseline, str) else {}, **hp)
+                    # pinned trainer: CPU, one device, full precision (RL4COTrainer defaults to "16-mixed"), fixed clipping, no logger / bars
+                    tr = RL4COTrainer(max_epochs=epochs, accelerator="cpu", devices=1, precision="32-true", gradient_clip_val=1.0, logger=False,
+                                      enable_checkpointing=False, enable_progress_bar=False, enable_model_summary=False, default_root_dir=out,
+                                      num_sanity_val_steps=0, matmul_precision=None)
+                    tr.fit(model)
+                    path = os.path.join(out, f"{envname}_{bl}.ckpt")
+                    tr.save_checkpoint(path)
+            except Exception as e:  # noqa: BLE001  — a legal model/baseline combination that cannot be trained or saved
+                import traceback
+                where = [ln.strip() for ln in traceback.format_exc().splitlines() if "/rl4co/" in ln][-2:]
+                V(ctx, f"ckpt-train-or-save-raises:{bl}:{type(e).__name__}", f"REINFORCE(baseline={bl!r}) cannot be trained / checkpointed: "
+                  f"{type(e).__name__}: {str(e)[:160]}", dict(witness, where=where))
+                return
             td = env.reset(env.generator([5]))
             model.policy.eval()
             with torch.no_grad():
                 o1 = model.policy(td.clone(), env, decode_type="greedy")
-            witness = {"env": envname, "num_loc": num_loc, "baseline": bl, "baseline_kwargs": blkw, "epochs": epochs, "seed": seed, "torch": torch.__version__}
             ctx.count(f"ckpt:{bl}")
             # (a) the public API as is
             loaded = None
@@ -2136,7 +2147,7 @@ def run_ckpt(ctx):
                 finally:
                     torch.load = _orig
             if loaded is None:
-                continue
+                return
             # --- actor
             loaded.policy.eval()
             with torch.no_grad():
@@ -2202,6 +2213,9 @@ def run_ckpt(ctx):
                         "baseline state_dict", "baseline policy greedy actions", "hparams/data_cfg/env generator", "baseline.eval(td, reward)"],
                         "saved_baseline_policy_differs_from_actor": actor_ne_baseline, "greedy_reward": [round(x, 4) for x in o1["reward"][:2].tolist()]}, cap=2)
             ctx.case(("ckpt", envname, bl, seed))
+
+        for envname, (bl, blkw, epochs) in combos:
+            guarded(ctx, f"ckpt[{envname},{bl}]", one, envname, bl, blkw, epochs)
     finally:
         shutil.rmtree(out, ignore_errors=True)
 
